@@ -440,6 +440,7 @@ def known_abort_truncate_fault(body):
 
 
 from zverif.harness.c12 import h_program as _conn_program  # noqa: E402
+from zverif.harness.c13 import h_directed_undo_pack as _blob_undo_abort, h_undo_fault as _blob_undo_fault  # noqa: E402
 
 HARNESSES = [
     Harness('fault', h_fault,
@@ -494,6 +495,18 @@ HARNESSES = [
             code=['FileStorage._begin', 'BaseStorage.tpc_begin', 'DemoStorage.tpc_begin/tpc_abort'],
             quick=dict(timeout=120, shards=shards(storage=['file', 'demo_file'])),
             thorough=dict(timeout=300, shards=shards(storage=['file', 'demo_file']))),
+    Harness('blob_undo_abort', _blob_undo_abort,
+            decides='an undo of blob transactions whose commit fails (another participant refuses at the vote) or during which a '
+                    'file-system operation fails leaves the blob directory exactly as before: no committed blob file lost, no copy left behind '
+                    '(C13 directed_undo_pack / undo_fault on the blob wrapper over FileStorage and on FileStorage with a blob directory)',
+            symbolic='history selectors, final step selector (incl. the failing undo of the two newest transactions)', bounds='programs of 5-10 steps; real scratch directory',
+            oracle='blob revision model + directory listing', code=['BlobStorage.undo (dirty_oids)', 'BlobStorage.tpc_abort', '_blob_tpc_abort'],
+            quick=dict(timeout=150, shards=shards(kind=['proxy', 'file'])), thorough=dict(timeout=300, shards=shards(kind=['proxy', 'file']))),
+    Harness('blob_undo_fault', _blob_undo_fault,
+            decides='(C13 undo_fault) an undo during which any one file-system operation of the blob code fails stands completely or leaves nothing behind',
+            symbolic='f = index of the failing operation', bounds='one fault per undo', oracle='blob revision model + directory listing',
+            code=['BlobStorage.undo', 'FileStorage._txn_undo_write (blob copy)'],
+            quick=dict(timeout=100, shards=shards(kind=['proxy'])), thorough=dict(timeout=200, shards=shards(kind=['proxy', 'file']))),
     Harness('connection_failed_commit', _conn_program,
             decides='connection level: after a commit that fails with a conflict in the middle of storing - also when the data comes '
                     'from savepoints - the connection shows the state from before the transaction and the retry commits normally '
